@@ -77,6 +77,10 @@ def und_adj(draw, nmin, nmax, connected):
         a = draw(st.integers(2, n - 2))
         A = gen.barbell_adj(a, n - a)
     elif fam == "star+edge":
+        if nmax >= 30:
+            # hub-dominated: two random connections are vertex-disjoint only a few percent of the time,
+            # so the routines' redraw loops run for dozens of rounds
+            n = draw(st.integers(48, 64))
         A = gen.star_adj(n)
     else:
         A = draw(gen.er_adj(n, False, "dense"))
